@@ -516,6 +516,51 @@ func genC06(g *gen) {
 		s2, _ := x2.Sign([]byte("d"))
 		g.check(x1.GetPK() == x2.GetPK() && bytes.Equal(s1, s2), "deterministic", "two keys from the same (seed, height, hash) differ in PK or signature")
 	}
+	g.concurrentDeterminism()
+}
+
+// concurrentDeterminism: the same (seed, height, hash) on many goroutines at once must give the public key and the
+// signatures it gives alone (the outputs are a fixed function of the inputs, whatever else the process is doing)
+func (g *gen) concurrentDeterminism() {
+	g.note("the same inputs on 16 goroutines at once")
+	seed := g.bytes(48)
+	type res struct {
+		pk  [67]byte
+		sig []byte
+		ok  bool
+	}
+	one := func(hf, idx int) (r res) {
+		defer func() {
+			if e := recover(); e != nil {
+				r.ok = false
+			}
+		}()
+		x := newKey(seed, 4, hf)
+		x.SetIndex(uint32(idx))
+		s, err := x.Sign([]byte("concurrent"))
+		r.pk, r.sig, r.ok = x.GetPK(), s, err == nil
+		if r.ok {
+			r.ok = xmss.Verify([]byte("concurrent"), s, r.pk)
+		}
+		return
+	}
+	want := map[[2]int]res{}
+	for hf := 0; hf < 3; hf++ {
+		for _, idx := range []int{0, 7} {
+			want[[2]int{hf, idx}] = one(hf, idx)
+		}
+	}
+	var mu sync.Mutex
+	parallel(16*6, func(k int) {
+		hf, idx := k%3, []int{0, 7}[(k/3)%2]
+		got := one(hf, idx)
+		w := want[[2]int{hf, idx}]
+		mu.Lock()
+		g.check(got.ok && w.ok && got.pk == w.pk && bytes.Equal(got.sig, w.sig), "deterministic-under-concurrency",
+			fmt.Sprintf("h=4 %s index %d: public key / signature / Verify obtained while other goroutines use the library differ from those obtained alone", hfName[hf], idx),
+			fmt.Sprintf("x.new c %s 4 %d 0", hx(seed), hf), fmt.Sprintf("x.setidx c %d", idx), "x.sign c "+hx([]byte("concurrent")))
+		mu.Unlock()
+	})
 }
 
 // ---------------------------------------------------------------- C08
